@@ -58,17 +58,13 @@ def validate(ctx, cases, shards=16):
             continue
         recs.append(dict(id=c["id"], src=c["src"], extra=c["extra"], toks=r["obs"]["toks"]))
     if recs:
-        path = ctx.work + "/trace_c10.ndjson"
-        vlib.write_ndjson(path, recs)
-        t = ctx.tlc("Trace_C10", "Trace_C10.cfg", env=dict(VERIF_TRACE=path), timeout=3000, xss="256m")
+        t = ctx.tlc_trace("Trace_C10", "Trace_C10.cfg", recs, timeout=3000, xss="256m")
         if t.tuples("REJECTED") or not t.ok:
             raise vlib.Infra("Trace_C10 did not consume the trace: %s" % (t.error or t.tuples("REJECTED")))
         byid = {c["id"]: c for c in recs}
-        for line in t.out.splitlines():
-            if line.startswith('<<"FAIL"'):
-                tid = json.loads(line[len('<<"FAIL", '):].split(", {")[0])
-                clauses = sorted(json.loads("[" + line[line.index("{") + 1:line.rindex("}")] + "]"))
-                fails.append((byid[tid], "+".join(clauses), dict(toks=byid[tid]["toks"])))
+        from lib import render
+        for tid, clauses in render.parse_fail_lines(t.out):
+            fails.append((byid[tid], "+".join(clauses), dict(toks=byid[tid]["toks"])))
         ctx.drift += len(t.tuples("DRIFT"))
         ctx.cov["traces_validated_against_impl"] += len(recs)
     ctx.cov["evaluations"] += len(cases)
